@@ -80,8 +80,16 @@ struct Sol : squids::SQuIDS {
 static std::unique_ptr<Sol> make_solver(int d) { std::unique_ptr<Sol> s(new Sol(3, d)); s->Set_xrange(std::vector<double>{0.5, 1.5, 4.0}); for (unsigned ix = 0; ix < 3; ix++) for (unsigned ir = 0; ir < 2; ir++) s->setrho(ix, ir, scaled(probe(d, (ix + ir) % 3), 1 + 0.2 * ix)); s->Evolve(0.75); return s; }
 // use_tls=false (reference values computed on the main thread) replaces the two buffer-less overloads by the explicit-buffer
 // ones: their thread-local static scratch on the main thread would outlive an episode of the arena
+static const SU_vector* g_shared_op = nullptr;   // an operator built by the main thread and only read by the workers
 static void body_query(const Sol& s, int t, Out& out, bool use_tls = true) {
   int d = s.d; std::vector<bool> avr(d * (d - 1) / 2);
+  // odd threads make a buffer-less query their very FIRST library call (no vector of their own built before): the order in
+  // which the thread-local scratch buffer and the thread-local block cache come to life then differs from the usual one
+  if (g_shared_op && (t % 2 == 1)) {
+    squids::SQuIDS::expectationValueDBuffer* nb = nullptr; (void)nb;
+    if (use_tls) out.push_back(s.GetExpectationValueD(*g_shared_op, 0, 1.25));
+    else { squids::SQuIDS::expectationValueDBuffer b0(d); out.push_back(s.GetExpectationValueD(*g_shared_op, 0, 1.25, b0)); }
+  }
   for (int rep = 0; rep < 2; rep++) for (unsigned ir = 0; ir < 2; ir++) {
     SU_vector O = mkvec(d, probe(d, (t + ir) % 3));
     double x = (t % 2) ? 2.0 : 1.0 + 0.5 * ir;           // overlapping and disjoint (irho, x)
@@ -122,9 +130,9 @@ int main(int argc, char** argv) {
       std::vector<Out> solo(n); for (int t = 0; t < n; t++) { std::thread x([&, t] { body_own(t, solo[t]); }); x.join(); }
       std::string why; count("evaluations"); if (!same(out, solo, true, why)) violation("free-running:own-vectors:differs-from-solo", J().i("threads", n).str("why", why).done()); }
     { Ring R; R.n = n; for (int t = 0; t < n; t++) R.ch.emplace_back(new Chan()); std::vector<Out> out(n); std::vector<std::thread> th; for (int t = 0; t < n; t++) th.emplace_back([&, t] { body_ring(R, t, out[t]); }); for (auto& x : th) x.join(); count("evaluations"); }
-    { std::unique_ptr<Sol> s = make_solver(2 + rep % 3); std::vector<Out> out(n), ref_(n); for (int t = 0; t < n; t++) body_query(*s, t, ref_[t], false);
+    { std::unique_ptr<Sol> s = make_solver(2 + rep % 3); SU_vector shared_op = mkvec(s->d, probe(s->d, 1)); g_shared_op = &shared_op; std::vector<Out> out(n), ref_(n); for (int t = 0; t < n; t++) body_query(*s, t, ref_[t], false);
       std::vector<std::thread> th; for (int t = 0; t < n; t++) th.emplace_back([&, t] { body_query(*s, t, out[t]); }); for (auto& x : th) x.join();
-      std::string why; count("evaluations"); if (!same(out, ref_, true, why)) violation("free-running:shared-solver:differs-from-sequential", J().i("threads", n).str("why", why).done()); }
+      std::string why; count("evaluations"); if (!same(out, ref_, true, why)) violation("free-running:shared-solver:differs-from-sequential", J().i("threads", n).str("why", why).done()); g_shared_op = nullptr; }
     { std::vector<Out> out(n); std::vector<std::thread> th; for (int t = 0; t < n; t++) th.emplace_back([&, t] { body_exit(t, out[t]); }); for (auto& x : th) x.join(); count("evaluations"); }
     distinct(ref::fnv(&rep, 4, n));
   }
@@ -136,7 +144,7 @@ int main(int argc, char** argv) {
 // ------------------------------------------------------------------ explorer pass
 struct Scenario { std::string name; int n; int bound; };
 static std::vector<Out> g_out, g_ref; static bool g_have_ref; static Ring* g_ring; static std::unique_ptr<Sol> g_solver; static std::vector<Out> g_expect_query;
-static long g_live_before_threads;
+static long g_live_before_threads; static std::unique_ptr<SU_vector>* g_shop_owner = nullptr;
 
 int main(int argc, char** argv) {
   Args ar = parse(argc, argv); quiet_gsl(); install_crash_reporter();
@@ -155,7 +163,7 @@ int main(int argc, char** argv) {
       g_out.assign(sc.n, Out());
       if (sc.name == "own-vectors") for (int t = 0; t < sc.n; t++) ex.spawn([t]() { body_own(t, g_out[t]); });
       else if (sc.name == "hand-over-ring") { delete g_ring; g_ring = new Ring(); g_ring->n = sc.n; for (int t = 0; t < sc.n; t++) g_ring->ch.emplace_back(new Chan()); for (int t = 0; t < sc.n; t++) ex.spawn([t]() { body_ring(*g_ring, t, g_out[t]); }); }
-      else if (sc.name == "shared-solver") { g_solver = make_solver(3); g_expect_query.assign(sc.n, Out()); for (int t = 0; t < sc.n; t++) body_query(*g_solver, t, g_expect_query[t], false); for (int t = 0; t < sc.n; t++) ex.spawn([t]() { body_query(*g_solver, t, g_out[t]); }); }
+      else if (sc.name == "shared-solver") { g_solver = make_solver(3); static std::unique_ptr<SU_vector> shop; shop.reset(new SU_vector(mkvec(3, probe(3, 1)))); g_shared_op = shop.get(); g_shop_owner = &shop; g_expect_query.assign(sc.n, Out()); for (int t = 0; t < sc.n; t++) body_query(*g_solver, t, g_expect_query[t], false); for (int t = 0; t < sc.n; t++) ex.spawn([t]() { body_query(*g_solver, t, g_out[t]); }); }
       else { for (int t = 0; t < sc.n; t++) ex.spawn([t]() { body_exit(t, g_out[t]); }); }
       g_live_before_threads = A.live_blocks();
     };
@@ -169,6 +177,7 @@ int main(int argc, char** argv) {
       // main-thread teardown
       if (g_ring) { delete g_ring; g_ring = nullptr; }
       g_solver.reset();
+      if (g_shop_owner) { g_shop_owner->reset(); g_shop_owner = nullptr; } g_shared_op = nullptr;
       SU_vector::clear_mem_cache();
       if (A.errors()) { viol++; violation("threads:" + sc.name + ":ledger:" + A.first_error, ctx + "}"); }
       else if (sc.name != "thread-exit" && A.live_blocks()) { viol++; violation("threads:" + sc.name + ":blocks-retained-after-all-threads-ended", ctx + ",\"blocks_still_live\":" + std::to_string(A.live_blocks()) + "}"); }
